@@ -570,7 +570,10 @@ def run_check(layer, lname: str, chk: List[Any]) -> Tuple[str, Any]:
         if entry == "L":
             layer.decode(pdu)
         elif entry == "R":
-            layer.decode_response(pdu, bytes.fromhex(req_hex or ""))
+            req: Any = bytes.fromhex(req_hex or "")
+            if len(req) % 2 == 1:
+                req = bytearray(req)  # encode_request() returns a bytearray: what callers naturally pass back
+            layer.decode_response(pdu, req)
         elif entry == "S":
             svc, _ = find_objects(layer, target[0], None)
             if svc is None:
